@@ -42,13 +42,7 @@ func VerifC09_InheritedErrorsOrder() {
 	for _, n := range names {
 		svc.Errors = append(svc.Errors, mkErr(n))
 	}
-	m := &MethodExpr{Name: "m", Service: svc}
-	// the method declares one error of its own and may redefine a service-level one
-	m.Errors = []*ErrorExpr{mkErr("own")}
 	redefined := nondetChoice("redefines", len(names)+1)
-	if redefined < len(names) {
-		m.Errors = append(m.Errors, mkErr(names[redefined]))
-	}
 	want := "own,"
 	if redefined < len(names) {
 		want += names[redefined] + ","
@@ -58,13 +52,23 @@ func VerifC09_InheritedErrorsOrder() {
 			want += n + ","
 		}
 	}
-	verifMapOrder(2)
-	m.Finalize()
-	verifMapOrder(0)
-	got := ""
-	for _, e := range m.Errors {
-		got += e.Name + ","
+	got := want
+	// natively Go picks a map order at random: repeat (once in the executor,
+	// which explores every order instead)
+	for rep := 0; rep < verifNativeRepeat() && got == want; rep++ {
+		m := &MethodExpr{Name: "m", Service: svc}
+		// the method declares one error of its own and may redefine a service-level one
+		m.Errors = []*ErrorExpr{mkErr("own")}
+		if redefined < len(names) {
+			m.Errors = append(m.Errors, mkErr(names[redefined]))
+		}
+		verifMapOrder(2)
+		m.Finalize()
+		verifMapOrder(0)
+		got = ""
+		for _, e := range m.Errors {
+			got += e.Name + ","
+		}
 	}
-	verifObserve("got", got)
 	verifAssert("inherited-errors-in-declaration-order", got == want)
 }
